@@ -11,6 +11,7 @@
 
 import itertools
 import random
+import re
 from concurrent.futures import ThreadPoolExecutor
 
 from .. import tlc, tlaval
@@ -194,8 +195,8 @@ def _ids_features(case):
         feats.append("has_long_id")
     if any(len(dec(item["name"])) > 16 for item in case["in"]):
         feats.append("has_long_name")
-    if any(item.get("no", 0) > 99999 for item in case["in"]):
-        feats.append("contig_number_over_five_digits")
+    if any(re.search(r"\d{6,}", dec(item[key])) for item in case["in"] for key in ("id", "name")):
+        feats.append("digit_run_over_five")
     if any(ident and all(ch in ILLEGAL for ch in ident) or not ident for ident in ids):
         feats.append("id_without_usable_character")
     return sorted(feats)
@@ -227,21 +228,6 @@ def _random_id(rng):
     return ident[:rng.choice([40, 17, 16, 40])]
 
 
-def _contig_number(ident):
-    """ labels an input: the number the id carries after contig/scaffold/c (by construction of RANDOM_PIECES) """
-    for marker in ("contig", "scaffold"):
-        pos = ident.find(marker)
-        if pos >= 0:
-            digits = ""
-            for ch in ident[pos + len(marker):]:
-                if not ch.isdigit():
-                    break
-                digits += ch
-            if digits:
-                return int(digits)
-    return 0
-
-
 def _random_ids_case(rng):
     base = [_random_id(rng) for _ in range(rng.choice([2, 3, 4, 5, 6]))]
     if rng.random() < 0.4:
@@ -254,7 +240,7 @@ def _random_ids_case(rng):
     items = []
     for ident in base:
         name = ident if rng.random() < 0.6 else _random_id(rng)
-        items.append({"id": enc(ident), "name": enc(name), "no": max(_contig_number(ident), _contig_number(name))})
+        items.append({"id": enc(ident), "name": enc(name)})
     return {"op": "ids", "allow": rng.random() < 0.4, "in": items, "sampled": True}
 
 
@@ -282,8 +268,8 @@ def _fix_features(case):
         feats.append("has_illegal_character")
     if len(ident) > 16:
         feats.append("has_long_id")
-    if _contig_number(ident) > 99999 or _contig_number(dec(case["in"]["name"])) > 99999:
-        feats.append("contig_number_over_five_digits")
+    if re.search(r"\d{6,}", ident) or re.search(r"\d{6,}", dec(case["in"]["name"])):
+        feats.append("digit_run_over_five")
     return sorted(feats)
 
 
